@@ -42,6 +42,9 @@ Inductive result (A : Type) : Type :=
 Arguments Ok {A} a.
 Arguments Err {A} e s.
 
+Lemma Ok_inj {A} (a b : A) : Ok a = Ok b -> a = b.
+Proof. intros H. change (match Ok a with Ok x => x | Err _ _ => a end = b). rewrite H. reflexivity. Qed.
+
 Definition bind {A B} (r : result A) (f : A -> result B) : result B :=
   match r with Ok a => f a | Err e s => Err e s end.
 
